@@ -144,12 +144,18 @@ Definition spec_ok (c : call) (o : outcome) : bool :=
   | CRand X s e Rs =>
       if valid_t X then
         if (0 <=? s) && (s <? e) && (e <=? Z.of_nat (tL X)) then
-          match o with
-          | Ok Ys => forallb (fun Y => cols_valid (tA X) Y &&
-                        each_example X Y (fun _ x y => frame_point (Z.to_nat s) (Z.to_nat e) x y)) Ys
-          | Err => (* a drawn replacement outside the scope (wrong alphabet) may be rejected *)
-                   negb (forallb (motif_ok X) Rs && forallb (fun R => (tL R =? Z.to_nat (e - s))%nat) Rs)
-          end
+          (* the replacements are an input of the model (the harness replays the RNG); the
+             demand is conditional on their being what randomize can draw: one-hot over X's
+             alphabet, one per example (or shared), of length end-start.  Outside that the
+             text is silent. *)
+          if forallb (motif_ok X) Rs && forallb (fun R => (tL R =? Z.to_nat (e - s))%nat) Rs then
+            match o with
+            | Ok Ys => (length Ys =? length Rs)%nat &&
+                       forallb (fun Y => cols_valid (tA X) Y &&
+                          each_example X Y (fun _ x y => frame_point (Z.to_nat s) (Z.to_nat e) x y)) Ys
+            | Err => false
+            end
+          else true
         else negb (is_ok o)
       else true
   end.
